@@ -505,7 +505,7 @@ class PODReader(Reader):
         max_line = max(scan_lines.max(), shifted_lines_floor.max()+1)
         num_lines = max_line - min_line + 1
         missed_lines = np.setdiff1d(np.arange(min_line, max_line+1), scan_lines)
-        missed_utcs = ((missed_lines - scan_lines[0])*np.timedelta64(scan_rate, "ms")
+        missed_utcs = ((missed_lines - scan_lines[0])*np.timedelta64(scan_rate, "us")
                        + self._times_as_np_datetime64[0])
         # calculate the missing geo locations
         try:
